@@ -429,13 +429,34 @@ theorem hincrby_on_float_field (c : Ctx) (s : State) (k f incr : Bytes) (h : KMa
 
 /-! ### HRANDFIELD -/
 
-/-- **a count of at least the number of fields returns all of them** (map order) -/
+/-- **a stored hash without fields** (what HDEL of the last field leaves behind) **answers the empty array
+    for every count** — positive, zero or negative, with or without WITHVALUES, or no count at all — and
+    the state is untouched: an empty hash reads like an absent key -/
+theorem hrandfield_empty_hash (c : Ctx) (s : State) (k cnt : Bytes) (ex : Option Int) (n : Int)
+    (hl : s.lookup c.db k = some ⟨.hash [], ex⟩) (hlive : (⟨.hash [], ex⟩ : Entry).expired c.now = false)
+    (hc : parseInt64 cnt = some n) :
+    (handleHRandField c [b "hrandfield", k, cnt]).run c s = (s, .done (.ok (b "*0\r\n"))) ∧
+    (handleHRandField c [b "hrandfield", k, cnt, b "withvalues"]).run c s = (s, .done (.ok (b "*0\r\n"))) ∧
+    (handleHRandField c [b "hrandfield", k]).run c s = (s, .done (.ok (b "*0\r\n"))) := by
+  refine ⟨?_, ?_, ?_⟩
+  · cases hz : decide (n = 0) <;>
+      simp_all [handleHRandField, keysExist_single, getValues_live _ _ _ _ hl hlive, asHash?]
+  · cases hz : decide (n = 0) <;>
+      simp_all [handleHRandField, keysExist_single, getValues_live _ _ _ _ hl hlive, asHash?, withvalues_facts]
+  · simp [handleHRandField, keysExist_single, hl, getValues_live _ _ _ _ hl hlive, asHash?]
+
+/-- **a count of at least the number of fields returns all of them** (map order; a hash without fields is
+    `hrandfield_empty_hash`) -/
 theorem hrandfield_all (c : Ctx) (s : State) (k cnt : Bytes) (h : KMap Scalar) (ex : Option Int) (n : Int)
     (hl : s.lookup c.db k = some ⟨.hash h, ex⟩) (hlive : (⟨.hash h, ex⟩ : Entry).expired c.now = false)
-    (hc : parseInt64 cnt = some n) (hn : (h.length : Int) ≤ n) (hn0 : n ≠ 0) :
+    (hc : parseInt64 cnt = some n) (hn : (h.length : Int) ≤ n) (hne : h ≠ []) :
     (handleHRandField c [b "hrandfield", k, cnt]).run c s
       = (s, .done (.okPerm (arrHdr h.length) (h.map fun fv => bulkStr fv.1))) := by
-  simp [handleHRandField, keysExist_single, hl, hc, getValues_live _ _ _ _ hl hlive, asHash?, hn]
+  have hn0 : n ≠ 0 := by
+    intro e; subst e; cases h with
+    | nil => exact hne rfl
+    | cons x r => simp at hn; omega
+  simp [handleHRandField, keysExist_single, hl, hc, getValues_live _ _ _ _ hl hlive, asHash?, hn, hne]
 
 /-- **a positive count below the number of fields selects that many distinct fields** -/
 theorem hrandfield_positive (c : Ctx) (s : State) (k cnt : Bytes) (h : KMap Scalar) (ex : Option Int) (n : Int)
@@ -448,9 +469,9 @@ theorem hrandfield_positive (c : Ctx) (s : State) (k cnt : Bytes) (h : KMap Scal
   have h2 : h ≠ [] := by intro e; subst e; simp at hn; omega
   simp [handleHRandField, keysExist_single, hl, hc, getValues_live _ _ _ _ hl hlive, asHash?, h1, h2, hn0]
 
-/-- **a negative count selects |count| fields, repeats allowed** (non-empty hash; on an empty hash the
-    model panics — witness below) -/
-theorem hrandfield_negative_partial (c : Ctx) (s : State) (k cnt : Bytes) (h : KMap Scalar) (ex : Option Int) (n : Int)
+/-- **a negative count selects |count| fields, repeats allowed** (a hash with at least one field to pick from;
+    the hash without fields answers the empty array: `hrandfield_empty_hash`) -/
+theorem hrandfield_negative (c : Ctx) (s : State) (k cnt : Bytes) (h : KMap Scalar) (ex : Option Int) (n : Int)
     (hl : s.lookup c.db k = some ⟨.hash h, ex⟩) (hlive : (⟨.hash h, ex⟩ : Entry).expired c.now = false)
     (hc : parseInt64 cnt = some n) (hn0 : n < 0) (hne : h ≠ []) :
     (handleHRandField c [b "hrandfield", k, cnt]).run c s
@@ -481,6 +502,37 @@ theorem hrandfield_withvalues (c : Ctx) (s : State) (k cnt : Bytes) (h : KMap Sc
   have h1 : ¬ ((h.length : Int) ≤ n) := by omega
   have h2 : h ≠ [] := by intro e; subst e; simp at hn; omega
   simp [handleHRandField, keysExist_single, hl, hc, getValues_live _ _ _ _ hl hlive, asHash?, h1, h2, hn0, withvalues_facts]
+
+/-- the handler program has no `panic` leaf -/
+def NoPanic {α : Type} : Prog α → Prop
+  | .ret _ => True
+  | .call _ k => ∀ r, NoPanic (k r)
+  | .panic _ => False
+  | .unmod _ => True
+
+/-- a program without a `panic` leaf never ends in a handler panic, whatever the state -/
+theorem NoPanic.run {α : Type} (c : Ctx) (p : Prog α) (hp : NoPanic p) (s : State) (w : String)
+    (h : (p.run c s).2 = .panic w) : w = "primitive" := by
+  induction p generalizing s with
+  | ret a => simp [Prog.run] at h
+  | call q k ih =>
+    simp only [Prog.run] at h
+    cases hq : q.exec c s with
+    | none => rw [hq] at h; simp at h; exact h.symm
+    | some sr => rw [hq] at h; exact ih sr.2 (hp sr.2) sr.1 h
+  | panic w' => exact hp.elim
+  | unmod w' => simp [Prog.run] at h
+
+/-- **HRANDFIELD cannot panic**: on every command line, the handler has no panicking path left (the only one,
+    `rand.Intn(0)` on a hash without fields, now answers the empty array) -/
+theorem hrandfield_never_panics (c : Ctx) (cmd : List Bytes) : NoPanic (handleHRandField c cmd) := by
+  unfold handleHRandField
+  repeat' (first
+    | exact trivial
+    | intro _
+    | split
+    | (dsimp only)
+    | (simp only [NoPanic]))
 
 /-! ### reading a key of another type fails without changing it -/
 
@@ -818,11 +870,15 @@ theorem hincrby_float_typed_field_witness :
     let s : State := { dbs := [(0, ⟨[(b "k", ⟨.hash [(b "x", .flt (.fin ⟨15, -1⟩))], none⟩)], []⟩)], mem := 0 }
     ((handleHIncrBy c [b "hincrby", b "k", b "x", b "1"]).run c s).2 = .done (.ok (b "+2.5\r\n")) := by decide
 
-/-- `hrandfield-empty-hash-panic`: a negative count on an empty hash panics -/
-theorem hrandfield_empty_hash_panic_witness :
+/-- repaired upstream (was the witness of class `hrandfield-empty-hash-panic`, where the handler ran into
+    `rand.Intn(0)`): HSET k f1 a f2 b; HDEL k f1 f1 f2 leaves a hash without fields, on which
+    HRANDFIELD k -3 answers the empty array -/
+theorem hrandfield_empty_hash_replay :
     let c : Ctx := { db := 0, now := 1000 }
-    let s : State := { dbs := [(0, ⟨[(b "k", ⟨.hash [], none⟩)], []⟩)], mem := 0 }
-    ((handleHRandField c [b "hrandfield", b "k", b "-1"]).run c s).2 = .panic "rand.Intn(0)" := by decide
+    let s1 := ((handleHSet c [b "hset", b "k", b "f1", b "a", b "f2", b "b"]).run c { dbs := [], mem := 0 }).1
+    let s2 := ((handleHDel c [b "hdel", b "k", b "f1", b "f1", b "f2"]).run c s1).1
+    s2.lookup 0 (b "k") = some ⟨.hash [], none⟩ ∧
+    (handleHRandField c [b "hrandfield", b "k", b "-3"]).run c s2 = (s2, .done (.ok (b "*0\r\n"))) := by decide
 
 /-- `expired-key-still-exists`: HLEN on a hash whose deadline has passed answers a type error instead of 0 -/
 theorem hlen_on_expired_key_witness :
@@ -890,8 +946,11 @@ example := hincrby_on_float_field c0 s0 (b "k") (b "x") (b "1") h0 (some 5000) 1
   (by decide) (by decide) (by decide) (by decide) (by decide) (by decide) (by decide)
 
 example := hrandfield_all c0 s0 (b "k") (b "3") h0 (some 5000) 3 (by decide) (by decide) (by decide) (by decide) (by decide)
+example := hrandfield_empty_hash c0 { dbs := [(0, ⟨[(b "k", ⟨.hash [], none⟩)], []⟩)], mem := 0 } (b "k") (b "-3") none (-3)
+  (by decide) (by decide) (by decide)
+example := hrandfield_never_panics c0 [b "hrandfield", b "k", b "-3"]
 example := hrandfield_positive c0 s0 (b "k") (b "2") h0 (some 5000) 2 (by decide) (by decide) (by decide) (by decide) (by decide)
-example := hrandfield_negative_partial c0 s0 (b "k") (b "-4") h0 (some 5000) (-4) (by decide) (by decide) (by decide) (by decide) (by decide)
+example := hrandfield_negative c0 s0 (b "k") (b "-4") h0 (some 5000) (-4) (by decide) (by decide) (by decide) (by decide) (by decide)
 example := hrandfield_default c0 s0 (b "k") h0 (some 5000) (by decide) (by decide) (by decide)
 example := hrandfield_withvalues c0 s0 (b "k") (b "2") h0 (some 5000) 2 (by decide) (by decide) (by decide) (by decide) (by decide)
 
